@@ -182,7 +182,21 @@ def run(repo: Repo, L: Ledger, tier: str):
         ok, why = _bounded(a_e - a_s + 1, B)
         L.check(ok, "R3", f.short + ":size", "chunk_end − chunk_start + 1 ≤ buffer_size", f"requested span [{a_s}, {a_e}] is not bounded by buffer_size: {why}", f.loc(node), witness={"span": f"{a_e - a_s + 1}"})
         L.check(len(info["yields"]) == 1, "R3", f.short + ":yield", "one chunk per iteration", f"{len(info['yields'])} yields per iteration", f.loc())
-        collects = [c for c in walk_shallow(f.node) if isinstance(c, ast.Call) and isinstance(c.func, ast.Attribute) and c.func.attr in ("append", "extend", "join")]
+        def chunk_data(e, depth=0):
+            """does the expression carry sequence bytes (a fetch / BytesIO / read result, possibly through a local)?"""
+            for x in ast.walk(e):
+                if isinstance(x, ast.Call):
+                    nm = (dotted(x.func) or "").split(".")[-1]
+                    if nm in ("sequence_bytes", "revcomp_bytes_io", "BytesIO", "read", "getvalue", "translate"):
+                        return True
+                if isinstance(x, ast.Name) and depth < 3:
+                    from ..util import local_defs
+
+                    if any(chunk_data(d, depth + 1) for d in local_defs(f, x.id)):
+                        return True
+            return False
+
+        collects = [c for c in walk_shallow(f.node) if isinstance(c, ast.Call) and isinstance(c.func, ast.Attribute) and c.func.attr in ("append", "extend", "join") and any(chunk_data(a) for a in c.args)]
         L.check(not collects and not any(isinstance(n, ast.Return) and n.value is not None for n in walk_shallow(f.node)), "R3", f.short + ":generator", "chunks are yielded, not collected", "chunks are collected into a container before being returned", f.loc())
     g = fi.methods.get("get_gap_iter")
     if g is None:
